@@ -276,6 +276,68 @@ func dsTextsOf(desc *hx.Val) (unitNames []string, all []string) {
 	return
 }
 
+const dsDupIDVariants = 7
+
+// dsDupIDDamage adds to the root object of the scope node an optional property whose type repeats an
+// object ID that occurs already (the root's own), with a classic defect inside: an undecodable
+// default, or a further nested scope without its root object. Every variant must be rejected at load.
+func dsDupIDDamage(scope *hx.Val, variant int) (string, bool) {
+	ro := dsRootObject(scope)
+	rootID := dsGetField(scope, "root")
+	if ro == nil || rootID == nil || rootID.Kind != "s" {
+		return "", false
+	}
+	props := dsGetField(ro, "properties")
+	if props == nil || props.Kind != "m" {
+		return "", false
+	}
+	S := hx.Str
+	kv := func(k string, v *hx.Val) [2]*hx.Val { return [2]*hx.Val{S(k), v} }
+	m := func(kvs ...[2]*hx.Val) *hx.Val { return hx.StrAny(kvs...) }
+	opt := kv("required", hx.Bool(false))
+	strT := m(kv("type_id", S("string")))
+	badDefault := func() *hx.Val { return m(kv("type", m(kv("type_id", S("integer")))), opt, kv("default", S("{"))) }
+	plain := func() *hx.Val { return m(kv("type", strT), opt) }
+	id := rootID.S
+	objF := func(oid string, inner ...[2]*hx.Val) [][2]*hx.Val {
+		return [][2]*hx.Val{kv("id", S(oid)), kv("properties", m(append([][2]*hx.Val{kv("k", plain())}, inner...)...))}
+	}
+	inlineObj := func(oid string, inner ...[2]*hx.Val) *hx.Val {
+		return m(append(objF(oid, inner...), kv("type_id", S("object")))...)
+	}
+	nestedScope := func(oid string, inner ...[2]*hx.Val) *hx.Val {
+		return m(kv("type_id", S("scope")), kv("root", S(oid)), kv("objects", m(kv(oid, m(objF(oid, inner...)...)))))
+	}
+	goneScope := func() *hx.Val { return m(kv("type_id", S("scope")), kv("root", S("Gone")), kv("objects", m())) }
+	addProp := func(name string, t *hx.Val) { props.M = append(props.M, kv(name, m(kv("type", t), opt))) }
+	switch variant {
+	case 0:
+		addProp("zz_inline", inlineObj(id, kv("zz_bad", badDefault())))
+		return "duplicate-id inline object with an undecodable default", true
+	case 1:
+		addProp("zz_nested", nestedScope(id, kv("zz_bad", badDefault())))
+		return "duplicate-id nested scope root with an undecodable default", true
+	case 2:
+		addProp("zz_nested", nestedScope(id, kv("sub", m(kv("type", goneScope()), opt))))
+		return "duplicate-id nested scope root holding a scope without root object", true
+	case 3:
+		addProp("zz_s1", inlineObj("Stage", kv("zz_bad", badDefault())))
+		addProp("zz_s2", inlineObj("Stage", kv("zz_bad", badDefault())))
+		return "duplicate-id sibling inline objects, both with an undecodable default", true
+	case 4:
+		addProp("zz_list", m(kv("type_id", S("list")), kv("items", inlineObj(id, kv("zz_bad", badDefault())))))
+		return "duplicate-id inline object under a list with an undecodable default", true
+	case 5:
+		addProp("zz_one", m(kv("type_id", S("one_of_string")), kv("discriminator_field_name", S("_t")),
+			kv("types", m(kv("a", inlineObj(id, kv("sub", m(kv("type", goneScope()), opt))))))))
+		return "duplicate-id one-of member holding a scope without root object", true
+	default:
+		addProp("zz_s1", nestedScope("Resources", kv("sub", m(kv("type", goneScope()), opt))))
+		addProp("zz_s2", nestedScope("Resources", kv("sub", m(kv("type", goneScope()), opt))))
+		return "duplicate-id sibling nested scopes, both holding a scope without root object", true
+	}
+}
+
 // dsSetField sets (or adds) a string-keyed entry of a map node.
 func dsSetField(m *hx.Val, key string, v *hx.Val) {
 	for i, kv := range m.M {
@@ -774,6 +836,14 @@ func dsLinkProblems(sc schema.Type) (problems []string) {
 				walk(x.Objects()[id], path+"/objects/"+id)
 			}
 		case *schema.ObjectSchema:
+			func() {
+				defer func() {
+					if r := recover(); r != nil {
+						problems = append(problems, fmt.Sprintf("the defaults of object %q at %s cannot be extracted: %v", x.ID(), path, r))
+					}
+				}()
+				x.GetDefaults()
+			}()
 			names := make([]string, 0, len(x.PropertiesValue))
 			for n := range x.PropertiesValue {
 				names = append(names, n)
@@ -1030,6 +1100,21 @@ func dsRebuildCmd(a Args) {
 				note = "odd-key-add"
 			}
 			add(mode, c, kind+": "+note+" "+dsOddKeyNames[ki]+" (map node "+strconv.Itoa(mi)+")")
+		}
+		// targeted: damage planted in an object whose ID ALSO occurs elsewhere in the same top-level
+		// scope (object IDs are unique per scope only): below the first occurrence - an inline object, a
+		// nested scope whose root carries the enclosing root's ID, under a list, as a one-of member -
+		// and as siblings
+		for n, si := range g.R.Perm(len(dsScopeNodes(desc))) {
+			if !thorough && n >= 1 {
+				break
+			}
+			for variant := 0; variant < dsDupIDVariants; variant++ {
+				c := dsCopyVal(desc)
+				if note, ok := dsDupIDDamage(dsScopeNodes(c)[si], variant); ok {
+					add(mode, c, kind+": "+note+" (scope "+strconv.Itoa(si)+")")
+				}
+			}
 		}
 		// targeted: the root object of every scope of the description (top level, nested scopes, data
 		// scopes of steps) gets an ID different from its key - with and without `id_unenforced` -, is
@@ -1302,7 +1387,9 @@ func dsWitnessesC10(add func(mode string, v *hx.Val, note string)) {
 	sameKey := func(hdata *hx.Val) *hx.Val {
 		sig := func(data *hx.Val) *hx.Val { return m(kv("sig", m(kv("id", S("sig")), kv("data_schema", data)))) }
 		st := m(kv("id", S("s")), kv("input", scope("O", kv("O", obj("O")))), kv("outputs", m(kv("ok", okOut))),
-			kv("signal_handlers", sig(hdata)), kv("signal_emitters", sig(scope("E", kv("E", obj("E", kv("e", prop(strT, opt))))))))
+			kv("signal_handlers", sig(hdata)), kv("signal_emitters", sig(scope("E",
+				kv("E", obj("E", kv("e", prop(strT, opt)), kv("next", prop(ref("E"), opt)), kv("all", prop(m(kv("type_id", S("list")), kv("items", ref("F"))), opt)))),
+				kv("F", obj("F", kv("f", prop(strT, opt)), kv("g", prop(strT, opt))))))))
 		return m(kv("steps", m(kv("s", st))))
 	}
 	for _, mode := range []string{"schema", "hello"} {
@@ -1311,6 +1398,17 @@ func dsWitnessesC10(add func(mode string, v *hx.Val, note string)) {
 		add(mode, sameKey(handlerData(ref("Item"), "Gone")), "witness: handler and emitter share a key; the handler's data schema has no root object")
 		add(mode, sameKey(handlerData(ref("Item"), "Root", kv("q", prop(m(kv("type_id", S("integer"))), opt, kv("default", S("{")))))), "witness: handler and emitter share a key; undecodable default in the handler's data schema")
 	}
+	// valid: nested scopes (as a property type, under a list, as a one-of member) whose references
+	// resolve inside the nested scope; must load and be usable
+	inner := func(tag string) *hx.Val {
+		sc := scope("I"+tag, kv("I"+tag, obj("I"+tag, kv("leaf", prop(ref("L"+tag), opt)), kv("more", prop(m(kv("type_id", S("list")), kv("items", ref("I"+tag))), opt)))),
+			kv("L"+tag, obj("L"+tag, kv("v", prop(strT, opt)), kv("w", prop(strT, opt)))))
+		sc.M = append(sc.M, kv("type_id", S("scope")))
+		return sc
+	}
+	add("scope", scope("A", kv("A", obj("A", kv("p", prop(inner("p"), opt)), kv("l", prop(m(kv("type_id", S("list")), kv("items", inner("l"))), opt)),
+		kv("o", prop(m(kv("type_id", S("one_of_string")), kv("discriminator_field_name", S("_t")), kv("types", m(kv("a", inner("o"))))), opt))))),
+		"valid nested scopes with references to their own objects: unmutated")
 	// oddly typed map keys at the map-like nodes of a description
 	nanKeyed := func(v *hx.Val) *hx.Val { return hx.AnyAny([2]*hx.Val{hx.F64(math.NaN()), v}) }
 	add("scope", m(kv("root", S("NaN")), kv("objects", nanKeyed(obj("NaN", kv("x", prop(strT, opt)), kv("y", prop(strT, opt)))))), "witness: NaN key in `objects`")
@@ -1402,6 +1500,10 @@ func dsSupervise(s *dsSink, work []dsWork, workPath string) {
 				}
 				if r.R == "panic" {
 					s.finding(dsFinding{Prop: "C10", What: "loading a description panicked (" + w.Mode + "): " + r.Msg, Cases: []int{loadCase}, Input: w.V, Detail: []string{w.Note}})
+				}
+				if r.R == "err" && strings.HasSuffix(w.Note, ": unmutated") {
+					// what SelfSerialize produced for a schema built through the constructors must load
+					s.finding(dsFinding{Prop: "C09", What: "a description produced by SelfSerialize is rejected (" + w.Mode + "): " + r.Msg, Cases: []int{loadCase}, Input: w.V, Detail: []string{w.Note}})
 				}
 			case "use-start":
 				pending = l.Use
